@@ -53,6 +53,33 @@ def run(ctx):
             vlib.report(ctx, {"kind": m["kind"], "backend": m["backend"], "tx": m["tx"]},
                         {"behaviour": m["steps"], "expected": m["expected"], "got": m["got"], "backend": m["backend"], "defs": defs["txs"].get(m["tx"])})
         cov.update(behaviours_replayed=len(beh), backend_steps_compared=steps, verdict_classes=rj["classes"])
+        # 2b. the same for the regime with a base fee and Qi->Quai conversion transactions (MCQiLedgerConv.tla): converted
+        #     outputs are handed out (not stored, not part of the fee), one recipient per transaction, no transaction without a fee
+        ec = vlib.tlc_must_pass(ctx, "MCQiLedgerConv", "MCQiLedgerConv_emit.cfg", workers=8, timeout=3000)
+        cdefs, cbeh = split_printed(ec)
+        if not cdefs or len(cbeh) < 500:
+            raise Broken("TLC emitted %d conversion behaviours" % len(cbeh))
+        cbf, cdf = ctx.work / "beh-conv.ndjson", ctx.work / "defs-conv.json"
+        cbf.write_text("\n".join(cbeh) + "\n")
+        cdf.write_text(json.dumps(cdefs))
+        csub = dbdir / "replay-conv"; csub.mkdir()
+        cres = ctx.work / "replay-conv.json"
+        vlib.run([drv, "replay", "-in", cbf, "-defs", cdf, "-out", cres, "-dir", csub, "-basefee", 1], timeout=3000, check=True)
+        cj = json.loads(cres.read_text())
+        csteps = 0
+        for be, st in cj["backends"].items():
+            if st.get("behaviours") != len(cbeh):
+                raise Broken("back-end %s replayed %s of %d conversion behaviours" % (be, st.get("behaviours"), len(cbeh)))
+            csteps += st["steps"]
+        conv_ok = sum(v for k, v in cj["classes"].items() if k.startswith("c") and k.endswith("/ok"))
+        if conv_ok < 100 or not any(k.endswith("/convaddr") for k in cj["classes"]) or not any(k.endswith("/fee") for k in cj["classes"]):
+            if not cj["mismatches"]:
+                raise Broken("conversion replay is vacuous: %s" % cj["classes"])
+        for m in cj["mismatches"] or []:
+            vlib.report(ctx, {"kind": m["kind"], "backend": m["backend"], "tx": m["tx"], "regime": "basefee+conversion"},
+                        {"behaviour": m["steps"], "expected": m["expected"], "got": m["got"], "backend": m["backend"], "defs": cdefs["txs"].get(m["tx"]),
+                         "model": "MCQiLedgerConv", "basefee": 1})
+        cov.update(conversion_behaviours_replayed=len(cbeh), conversion_backend_steps_compared=csteps, conversion_verdict_classes=cj["classes"])
         samples = [{"behaviour_from_TLC": json.loads(beh[len(beh) // 2])}]
         # 3. code -> spec: random universes, all back-ends, validated by QiLedgerTrace.tla
         validated, events = 0, 0
